@@ -26,7 +26,7 @@ Fixpoint sread_from (u : list Z) (sc : list (list Z * Z)) (n : Z) : list Z * obs
   match sc with
   | [] => (u, (st_ok, [n]))
   | (chunk, e) :: sc' =>
-    if (e =? -1)%Z then (u, (st_panic, []))
+    if (e =? -1)%Z then (u, (st_neg_read, []))
     else
       let u' := u ++ chunk in
       let n' := (n + zn (length chunk))%Z in
@@ -75,18 +75,18 @@ Definition sstep (s : spec) (o : op) : spec * obs :=
            (consume s k (last_read (firstn k (un s))), (st_ok, firstn k (un s)))
   | Truncate n =>
       if (n =? 0)%Z then (emptied, (st_ok, []))
-      else if (n <? 0)%Z || (zn (length (un s)) <? n)%Z then (mk (un s) None (pre s), (st_panic, []))
+      else if (n <? 0)%Z || (zn (length (un s)) <? n)%Z then (mk (un s) None (pre s), (st_trunc, []))
       else (mk (firstn (Z.to_nat n) (un s)) None (pre s), (st_ok, []))
   | Reset => (emptied, (st_ok, []))
   | Grow n =>
-      if (n <? 0)%Z then (s, (st_panic, []))
-      else (mk (un s) (lastk s) (pre_w (pre s)), (st_ok, []))
+      if (n <? 0)%Z then (s, (st_neg_count, []))
+      else (mk (un s) (lastk s) (pre_w (pre s)), (if (max_alloc <? n)%Z then st_too_large else st_ok, []))
   | ReadFrom sc =>
       let '(u', ob) := sread_from (un s) sc 0%Z in (mk u' None (pre_w (pre s)), ob)
   | WriteTo m e =>
       let nb := length (un s) in
       if Nat.eqb nb 0 then (emptied, (st_ok, [0%Z]))
-      else if (zn nb <? m)%Z then (mk (un s) None (pre s), (st_panic, (-1)%Z :: un s))
+      else if (zn nb <? m)%Z then (mk (un s) None (pre s), (st_bad_write, (-1)%Z :: un s))
       else
         let s' := consume s (Z.to_nat m) None in
         if negb (e =? 0)%Z then (s', (st_user e, m :: un s))
@@ -123,8 +123,26 @@ Definition next_g (g : bool) (o : op) : bool :=
   | _ => false
   end.
 Definition chunk_ok (ce : list Z * Z) : bool := Nat.leb (length (fst ce)) min_read.
-Definition op_ok (g : bool) (s : spec) (o : op) : bool :=
+
+(* k bounds the capacity the buffer can have reached: it only serves to say which Grow sizes the contract decides.
+   Grow n beyond max_alloc certainly fails with ErrTooLarge (as long as the capacity itself is below max_alloc);
+   Grow n certainly succeeds when even the worst-case reallocation 2k+n stays allocatable; sizes in between
+   depend on the memory actually available and are outside the property. *)
+Definition grow_k (k n : Z) : Z := Z.max k (Z.max (Z.of_nat small_buffer_size) (2 * k + n)).
+Fixpoint rf_k (k : Z) (sc : list (list Z * Z)) : Z :=
+  match sc with [] => grow_k k (Z.of_nat min_read) | _ :: sc' => rf_k (grow_k k (Z.of_nat min_read)) sc' end.
+Definition next_k (k : Z) (o : op) : Z :=
   match o with
+  | Write p | WriteString p => grow_k k (zn (length p))
+  | WriteByte _ => grow_k k 1
+  | WriteRune _ => grow_k k 4
+  | Grow n => if (n <? 0)%Z || (max_alloc <? n)%Z then k else grow_k k n
+  | ReadFrom sc => rf_k k sc
+  | _ => k
+  end.
+Definition op_ok (g : bool) (k : Z) (s : spec) (o : op) : bool :=
+  match o with
+  | Grow n => (n <? 0)%Z || (if (max_alloc <? n)%Z then (k <=? max_alloc)%Z else (2 * k + n <=? max_alloc)%Z)
   | UnreadByte | UnreadRune => negb g                   (* the property's exception: Unread* directly after Grow *)
   | ReadFrom sc => forallb chunk_ok sc                  (* a reader never returns more than it was offered, and at
                                                            least MinRead bytes are offered *)
@@ -132,10 +150,11 @@ Definition op_ok (g : bool) (s : spec) (o : op) : bool :=
   | ReWrite _ _ => match pre s with Some _ => true | None => false end
   | _ => true
   end.
-Fixpoint ok_seq (g : bool) (s : spec) (l : list op) : bool :=
+Fixpoint ok_seq (g : bool) (k : Z) (s : spec) (l : list op) : bool :=
   match l with
   | [] => true
-  | o :: r => op_ok g s o && ok_seq (next_g g o) (fst (sstep s o)) r
+  | o :: r => op_ok g k s o && ok_seq (next_g g o) (next_k k o) (fst (sstep s o)) r
   end.
 
 Definition init_spec (i : init) : spec := mk (init_data i) None (Some []).
+Definition init_k (i : init) : Z := zn (cap (init_buf i)).
